@@ -715,10 +715,33 @@ class LifeRun(Base):
         self.check_against("data", current, op)
         self.expected = current
 
+    def boot_and_probe(self):
+        """Start the process and make it load its data: an implementation may build
+        the suffix state at import or lazily at the first query, so 'the process is
+        up' means that the lists are there and that one suffix query, one domain
+        query and one TLD query went through."""
+        module = self.node.boot()
+        list(module.PUBLIC_SUFFIXES), list(module.PRIVATE_SUFFIXES)
+        tld = self.node.tld
+        # the TLD answers depend on the last label only — not on whether a suffix
+        # question happened to be asked before in this process: ask them first,
+        # then again after the suffix queries
+        labels = [str(t) for t in list(module.TLDS)[:4]] + list(self.cfg.get("alphabet", []))[:4] + ["invalid"]
+        early = [(t, tld.is_valid_tld(t), tld.has_valid_tld("http://www.example." + t + "/x")) for t in labels]
+        tld.split_suffix("probe.invalid")
+        tld.get_domain_name("probe.invalid")
+        tld.has_valid_suffix("probe.invalid")
+        late = [(t, tld.is_valid_tld(t), tld.has_valid_tld("http://www.example." + t + "/x")) for t in labels]
+        self.stats.checks += 1
+        if early != late:
+            diff = [(a, b) for a, b in zip(early, late) if a != b][:3]
+            raise Violation("tld_answer_depends_on_history", "boot", r([d[0] for d in diff]), r([d[1] for d in diff]), {"note": "same label asked before and after an unrelated suffix query"})
+        return module
+
     def boot(self, op):
         stats = self.stats
         try:
-            module = self.node.boot()
+            module = self.boot_and_probe()
         except SimCrash:
             raise HarnessError("crash during boot")
         except Exception as exc:  # torn data file: the node is down
@@ -728,7 +751,7 @@ class LifeRun(Base):
             stats.event("OP|bootfail|%s" % type(exc).__name__)
             # the operator reinstalls the last data file known to boot
             self.disk.files[self.node.data_path] = self.last_good
-            module = self.node.boot()
+            module = self.boot_and_probe()
         stats.probe("restart_ok")
         self.last_good = self.disk.files[self.node.data_path]
         loaded = list(module.PUBLIC_SUFFIXES) + list(module.PRIVATE_SUFFIXES)
